@@ -256,8 +256,9 @@ Uncatch(node) ==
 
 \* issue paths (strings) of the catching nodes reached under a given input
 RECURSIVE CatchPathsP(_, _, _, _)
+OwnPaths(node, p) == {PathStr(p)} \cup {node.tests[i].path : i \in {j \in DOMAIN node.tests : node.tests[j].path # ""}}
 CatchPathsP(node, in, p, fe) ==
-  CASE node.k = "prim" -> IF node.catch # None THEN {PathStr(p)} ELSE {}
+  CASE node.k = "prim" -> IF node.catch # None THEN OwnPaths(node, p) ELSE {}
     [] node.k = "struct" ->
          UNION {CatchPathsP(node.kids[i].node, Lookup(in, KeyOf(node.kids[i], fe, "parse")),
                             Append(p, KeyOf(node.kids[i], fe, "parse")), fe) : i \in DOMAIN node.kids}
@@ -270,7 +271,7 @@ CatchPathsP(node, in, p, fe) ==
 
 RECURSIVE CatchPathsV(_, _, _, _)
 CatchPathsV(node, d, dp, p) ==
-  CASE node.k = "prim" -> IF node.catch # None THEN {PathStr(p)} ELSE {}
+  CASE node.k = "prim" -> IF node.catch # None THEN OwnPaths(node, p) ELSE {}
     [] node.k = "struct" ->
          UNION {CatchPathsV(node.kids[i].node, d, Append(dp, node.kids[i].key),
                             Append(p, KeyOf(node.kids[i], "map", "validate"))) : i \in DOMAIN node.kids}
